@@ -84,7 +84,7 @@ func isLogEntryField(v ssa.Value, field string) bool {
 
 // ruleR01d: every DB.ProcessWrite call site in package server is behind a commit guard.
 func ruleR01d(h *H, rule string) {
-	h.Rule(rule, "K1", "every kv.DB.ProcessWrite call site of the server is (i) in the leader's quorum-commit continuation, (ii) only reachable from BecomeLeader after its quorum wait, or (iii) guarded by entry.Offset <= advertised commit offset", 3)
+	h.Rule(rule, "K1", "every kv.DB.ProcessWrite call site of the server is (i) in the leader's quorum-commit continuation, (ii) only reachable from BecomeLeader after its quorum wait, or (iii) guarded by entry.Offset <= advertised commit offset", 2)
 	worker := writeWorker(h, rule)
 	var app *appendSite
 	if worker != nil {
@@ -178,6 +178,16 @@ func guardedUpwards(h *H, site ssa.Instruction, becomeLeader *ssa.Function, foll
 			return false, "function literal " + ir.FuncName(fn) + " is never instantiated"
 		}
 		for _, mc := range sites {
+			// a local closure that is only called in place (`apply := func(..){..}; ...
+			// apply(x)`) runs where it is called, not where it is written down
+			if calls, only := localClosureCalls(mc); only && len(calls) > 0 {
+				for _, c := range calls {
+					if ok, why := guardedUpwards(h, c, becomeLeader, follower, depth+1, onPath); !ok {
+						return false, why
+					}
+				}
+				continue
+			}
 			if ok, why := guardedUpwards(h, mc, becomeLeader, follower, depth+1, onPath); !ok {
 				return false, why
 			}
@@ -200,6 +210,43 @@ func guardedUpwards(h *H, site ssa.Instruction, becomeLeader *ssa.Function, foll
 		reason = why
 	}
 	return true, reason
+}
+
+// localClosureCalls: the direct calls of a function literal in the function that creates
+// it; only=true when the literal is used for nothing else (not passed on, not stored in a
+// field, not started as a goroutine).
+func localClosureCalls(mc *ssa.MakeClosure) (calls []ssa.Instruction, only bool) {
+	only = true
+	fn := mc.Parent()
+	ir.Instrs(fn, func(in ssa.Instruction) {
+		if in == ssa.Instruction(mc) {
+			return
+		}
+		if c, isCall := in.(*ssa.Call); isCall && ir.Canon(c.Call.Value) == ssa.Value(mc) {
+			calls = append(calls, in)
+			for _, a := range c.Call.Args {
+				if ir.Canon(a) == ssa.Value(mc) {
+					only = false
+				}
+			}
+			return
+		}
+		for _, op := range in.Operands(nil) {
+			if *op == nil || ir.Canon(*op) != ssa.Value(mc) {
+				continue
+			}
+			switch x := in.(type) {
+			case *ssa.Store:
+				if _, local := x.Addr.(*ssa.Alloc); !local || x.Val != *op {
+					only = false
+				}
+			case *ssa.UnOp, *ssa.DebugRef, *ssa.Phi:
+			default:
+				only = false
+			}
+		}
+	})
+	return calls, only
 }
 
 // ruleR01f: the WAL marks an offset as synced only after a successful flush.
@@ -612,6 +659,17 @@ func ruleSyncCompletionsCovered(h *H, rule string) {
 				bad = "sync requests are still received at " + h.pos(in) + " after the appended offset was read (" + h.pos(snap) + "): an entry appended in between is reported durable by this round although the flush and the synced offset do not cover it"
 			}
 		})
+		if site := ir.SingleCallSite(fn); site != nil && bad == "" {
+			// the round was extracted into a helper: what the caller does after the call,
+			// before it completes the collected requests, belongs to the same round
+			caller := site.Parent()
+			h.Fn(ir.FuncName(caller))
+			ir.Instrs(caller, func(in ssa.Instruction) {
+				if bad == "" && in != ssa.Instruction(site) && ir.Dominates(site, in) && receives(in) {
+					bad = "sync requests are still received at " + h.pos(in) + " after the round's helper read the appended offset: an entry appended in between is reported durable by this round although the flush and the synced offset do not cover it"
+				}
+			})
+		}
 		h.Verdict(bad == "", rule, "sync round in "+ir.FuncName(fn), h.pos(snap), "all requests of a round are received before the snapshot of the appended offset", bad)
 		// the offset marked as synced is the one read before the flush: what was appended
 		// while the flush ran is not covered by it
@@ -638,7 +696,11 @@ func ruleSyncCompletionsCovered(h *H, rule string) {
 					fresh := false
 					if isCall {
 						if _, isLoad := isAtomicCallOnField(ld, "Load", "server/wal", tn, "lastSyncedOffset"); isLoad {
-							if r, _ := ir.Reach(ir.Search{From: ld}, ir.Is(ld)); r {
+							// read in the same round as the snapshot: both in the loop body, or
+							// both in a per-round helper (neither can reach itself)
+							ldLoops, _ := ir.Reach(ir.Search{From: ld}, ir.Is(ld))
+							snapLoops, _ := ir.Reach(ir.Search{From: snap}, ir.Is(snap))
+							if ldLoops == snapLoops {
 								fresh = true
 							}
 						}
@@ -705,6 +767,12 @@ func ruleCommittedContinuationsSucceed(h *H, rule string) {
 			return c != nil && c.IsInvoke() && c.Method.Name() == "OnComplete" && ir.TypeIs(c.Value.Type(), "common/concurrent", "Callback")
 		}
 		bad := ""
+		// batch form: `ready := queue[:k]; queue = queue[k:]; for _, r := range ready { r.cb.OnComplete }`
+		if _, one := ir.Canon(sl.Low).(*ssa.Const); !one {
+			bad = batchPopCompletesAll(h, fn, w.Instr, sl, isOk)
+			h.Verdict(bad == "", rule, fmt.Sprintf("commit queue pop #%d in %s", n, ir.FuncName(fn)), h.pos(w.Instr), "every popped request reaches OnComplete", bad)
+			continue
+		}
 		// from the pop, every way to the next pop / to a return passes OnComplete
 		ir.Instrs(fn, func(in ssa.Instruction) {
 			if bad != "" {
@@ -732,6 +800,72 @@ func ruleCommittedContinuationsSucceed(h *H, rule string) {
 	if n == 0 {
 		h.Anchor(rule, "the pop from the commit queue ("+tn+"."+queue+" = "+queue+"[1:])")
 	}
+}
+
+// batchPopCompletesAll: the queue is cut at k (`queue = queue[k:]`); the cut-off prefix
+// `queue[:k]` must be walked by a loop that completes every element successfully: the
+// loop is on every path from the cut to a return, its body always reaches OnComplete of
+// the current element before the next iteration, never leaves the function and never
+// completes with an error. Returns "" when that holds.
+func batchPopCompletesAll(h *H, fn *ssa.Function, pop ssa.Instruction, cut *ssa.Slice, isOk func(ssa.Instruction) bool) string {
+	// the prefix: a slice of the same queue value with High == the cut point
+	var prefix *ssa.Slice
+	ir.Instrs(fn, func(in ssa.Instruction) {
+		if s2, ok := in.(*ssa.Slice); ok && s2 != cut && s2.High != nil && ir.Canon(s2.High) == ir.Canon(cut.Low) && ir.SameExpr(s2.X, cut.X) {
+			if l, isC := ir.Canon(s2.Low).(*ssa.Const); s2.Low == nil || (isC && l.Int64() == 0) {
+				prefix = s2
+			}
+		}
+	})
+	if prefix == nil {
+		return "the queue is cut at " + ir.Describe(cut.Low) + " but the cut-off prefix is not kept: the requests taken off the queue are dropped without their success continuation"
+	}
+	// the loop that completes the elements of the prefix
+	var header *ssa.BasicBlock
+	ir.Instrs(fn, func(in ssa.Instruction) {
+		if !isOk(in) {
+			return
+		}
+		c := ir.CallOf(in)
+		if ir.DependsOn(c.Value, func(v ssa.Value) bool { return ir.Canon(v) == ssa.Value(prefix) }) {
+			if hd := ir.EnclosingLoopHeader(in.Block()); hd != nil {
+				header = hd
+			}
+		}
+	})
+	if header == nil {
+		return "no loop completes the elements of the cut-off prefix with OnComplete"
+	}
+	loop := ir.LoopBlocks(header)
+	bad := ""
+	// (a) every way from the cut to a return goes through the loop
+	inHeader := func(in ssa.Instruction) bool { return in.Block() == header }
+	ir.Instrs(fn, func(in ssa.Instruction) {
+		if _, isRet := in.(*ssa.Return); isRet && bad == "" && !loop[in.Block()] {
+			if r, path := ir.Reach(ir.Search{From: pop, Barrier: inHeader}, ir.Is(in)); r {
+				bad = "the function can return after cutting the queue without walking the cut-off prefix " + witness(path)
+			}
+		}
+	})
+	// (b) an iteration neither skips its element nor leaves the function nor fails it
+	for _, succ := range header.Succs {
+		if !loop[succ] || succ == header || bad != "" {
+			continue
+		}
+		if r, path := ir.Reach(ir.Search{FromBlock: succ, Barrier: isOk}, func(in ssa.Instruction) bool {
+			if in.Block() == header {
+				return true
+			}
+			if _, isRet := in.(*ssa.Return); isRet {
+				return true
+			}
+			c := ir.CallOf(in)
+			return c != nil && c.IsInvoke() && c.Method.Name() == "OnCompleteError"
+		}); r {
+			bad = "an iteration over the requests taken off the commit queue can go on, return or fail the request without its success continuation " + witness(path) + ": the entry is committed (followers and replays apply it) but the leader, which applies it only in that continuation, skips it"
+		}
+	}
+	return bad
 }
 
 // ruleCommitCheckUnderLock: deciding "this offset is already committed, complete at once"
@@ -786,15 +920,33 @@ func ruleCommitCheckUnderLock(h *H, rule string) {
 					return
 				}
 				n++
+				// bring the read and the enqueue into one function: a read inside a
+				// predicate helper stands at the helper's call site
+				at, atFn, enqAt := ssa.Instruction(in), fn, enq
+				if fn != enqFn {
+					if up := liftToRoot(enqFn, in); up != nil {
+						at, atFn = up, enqFn
+					} else if up := liftToRoot(fn, enq); up != nil {
+						enqAt = up
+					}
+				}
+				heldAt := held
+				if atFn != fn {
+					heldAt = ir.HeldAt(atFn)
+				}
+				heldE := heldEnq
+				if enqAt != enq {
+					heldE = held
+				}
 				locked := false
-				for l := range held[in] {
-					if !strings.HasPrefix(l, "R:") && heldEnq[enq][l] {
+				for l := range heldAt[at] {
+					if !strings.HasPrefix(l, "R:") && heldE[enqAt][l] {
 						locked = true
 					}
 				}
 				same := false
-				if locked && fn == enqFn {
-					same, _ = ir.SameCriticalSection(fn, in, enq)
+				if locked && at.Parent() == enqAt.Parent() {
+					same, _ = ir.SameCriticalSection(at.Parent(), at, enqAt)
 				}
 				h.Verdict(locked && same, rule, fmt.Sprintf("commit offset read #%d in %s", n, ir.FuncName(root)), h.pos(in), "read and enqueue in one critical section of the tracker mutex",
 					"the commit offset is tested outside the critical section that enqueues the waiter: an ack that commits the offset in between finds no waiter, and the request stays queued although it is committed (completed late and out of order, or never)")
